@@ -102,6 +102,26 @@ def markers_ahead_cases(res, seed, n):
     return out
 
 
+def fixed_monver_cases(res):
+    """Fixed corpus: MON-VER answers of particular shapes (up to the largest frame the parser accepts) are returned after one send."""
+    from .. import reflect as R
+    from ..common import Case
+    kt = R.key_tables()
+    sk = ','.join(str(k) for k in kt['signed']) or '-'
+    proj = RC.proj_for('C06')
+    out = []
+    for name, sc in S.fixed_monver_scenarios():
+        res_ = S.run_scenario(sc)
+        r = S.parse_result(res_)
+        desc = S.describe(sc)
+        desc['answer_shape'] = name
+        if not r['ret'].startswith('ret=UbxMonVer') or len(r['tx']) != 1:
+            res.violation('C06: the correct and timely MON-VER answer (' + name + ') to the first transmission was not returned after one send',
+                          {'property': 'C06', 'input': desc, 'implementation_says': res_[:400]}, 'C06|fixed-monver|' + name)
+        out.append(Case('request-fixed-monver', S.model_cmd(sc, sk), proj(res_), desc, domain=False, kind='fixed-monver', proj=proj))
+    return out
+
+
 def busy_line_cases(res, seed, n):
     """A busy serial line: 9..12 KiB of other traffic (sentences, other UBX frames; one byte per read) arrive before the
     correct and timely answer to the first transmission. Compared with the line model; oracle: answer after one send."""
@@ -151,6 +171,7 @@ def check(tier, seed):
         res.assumption_lines = a0_ + list(res.assumption_lines)
         cases = RC.run_suite(res, 'C06', tier, seed, 400, 15000, n_req=[1, 1, 1, 2, 3], force='good', oracle=oracle, late_every=10, history_every=6)
         gpsd_leftover_case(res)
+        cases += fixed_monver_cases(res)
         cases += busy_line_cases(res, seed, 2 if tier == 'quick' else 12)
         cases += markers_ahead_cases(res, seed, 16 if tier == 'quick' else 400)
         res.compare(cases)
